@@ -1,5 +1,5 @@
 #!/usr/bin/env python3
-"""record anti-vacuity floors (the decided (PROVED + REFUTED, i.e. including listed known findings) count per rule of the last run; 98% of it for rules with 200 or more obligations) for a property/tier from its evidence file.
+"""record anti-vacuity floors (the decided (PROVED + REFUTED, i.e. including listed known findings) count per rule of the last run; exact; a rule module may set FLOOR_RATIO for pooled groups) for a property/tier from its evidence file.
 Run by hand after the counts of a run on the unchanged tree have been confirmed; never run by a check."""
 import json, sys, os
 root = os.path.join(os.path.dirname(os.path.abspath(__file__)), '..')
@@ -16,6 +16,6 @@ for prop in sys.argv[1:]:
     for r, v in ev['coverage']['per_rule'].items():
         g = fgroup(r) if fgroup else r
         dec[g] = dec.get(g, 0) + v['PROVED'] + v['REFUTED']
-    e.setdefault(prop, {})[ev['tier']] = {g: (int(n * ratio) if ratio else (n if n < 200 else int(n * 0.98))) for g, n in dec.items() if n}
+    e.setdefault(prop, {})[ev['tier']] = {g: (int(n * ratio) if ratio else n) for g, n in dec.items() if n}
     print(prop, ev['tier'], e[prop][ev['tier']])
 json.dump(e, open(fp, 'w'), indent=1, sort_keys=True)
